@@ -776,10 +776,12 @@ impl<'p, W, R, T> CompilationScope<'p, W, R, T> {
                     }
                     None => return Err(CompilationError::ValueNotFound { name }),
                 };
+                // a function used as a value is gated by its forward requirements exactly as a
+                // called one is (prepare_return), also when it lives in this very scope
+                self.require_forwards(forward_requirements)?;
                 let new_cell_idx = if height == self.height {
                     cell_idx
                 } else {
-                    self.require_forwards(forward_requirements)?;
                     let new_cell = Cell::Capture {
                         ancestor_depth: self.height - height,
                         cell_idx,
